@@ -893,6 +893,51 @@ def r15(ctx: Ctx) -> RuleReport:
 
 
 # ---------------------------------------------------------------------------------------------
+def _colon_helpers(ctx: Ctx) -> Set[str]:
+    """Names of the module-level functions of penman.graph that return their argument with a leading colon added when it has none
+    (whatever they are called): every symbolic return path is `x` under x.startswith(':') or `':' + x` under its negation."""
+    from ..resolve import symbolic_returns
+    out: Set[str] = set()
+    for f in ctx.repo.module(G).all_funcs:
+        if f.cls is not None or f.parent is not None or len(f.positional) != 1:
+            continue
+        p = f.positional[0]
+        try:
+            paths = symbolic_returns(f)
+        except AnalysisError:
+            continue
+        if not paths:
+            continue
+        good = True
+        for conds, val, st in paths:
+            if val is None:
+                good = False
+                break
+            cs = set()
+            for c, pol in conds:
+                while isinstance(c, ast.UnaryOp) and isinstance(c.op, ast.Not):
+                    c, pol = c.operand, not pol
+                cs.add((norm(c).replace(' ', ''), pol))
+            has = (f"{p}.startswith(':')", True) in cs
+            hasnot = (f"{p}.startswith(':')", False) in cs
+            # conditional expressions inside the return value
+            if isinstance(val, ast.IfExp) and norm(val.test).replace(' ', '') in (f"{p}.startswith(':')", f"not{p}.startswith(':')"):
+                pos_arm, neg_arm = (val.body, val.orelse) if norm(val.test).replace(' ', '') == f"{p}.startswith(':')" else (val.orelse, val.body)
+                if norm(pos_arm) == p and norm(neg_arm).replace(' ', '') == f"':'+{p}":
+                    continue
+                good = False
+                break
+            if has and norm(val) == p:
+                continue
+            if hasnot and norm(val).replace(' ', '') == f"':'+{p}":
+                continue
+            good = False
+            break
+        if good:
+            out.add(f.name)
+    return out
+
+
 @rule('R123', 'Graph() gives every triple it is built from a role with a leading colon, whatever kind of sequence the triple is')
 def r123(ctx: Ctx) -> RuleReport:
     from ..resolve import symbolic_returns
@@ -909,8 +954,10 @@ def r123(ctx: Ctx) -> RuleReport:
         return rep
     comp = v if isinstance(v, (ast.ListComp, ast.GeneratorExp)) else v.args[0]
 
+    colon_helpers = _colon_helpers(ctx)
+
     def normalised(e) -> bool:
-        return isinstance(e, ast.Tuple) and len(e.elts) == 3 and isinstance(e.elts[1], ast.Call) and norm(e.elts[1].func) == '_ensure_colon'
+        return isinstance(e, ast.Tuple) and len(e.elts) == 3 and isinstance(e.elts[1], ast.Call) and norm(e.elts[1].func) in colon_helpers
     if comp.generators[0].ifs:
         rep.violation(key, gi.loc(stores[0]), f'the triples are filtered with {[norm(c) for c in comp.generators[0].ifs]}: some of the triples given to Graph() are dropped')
         return rep
